@@ -185,7 +185,17 @@ func (wm *warm) runProbe(tx []byte, spec hist.TxSpec, check, force bool, follow 
 		return out
 	}
 	include := force
-	if pr, ok := probePrime.Load(string(tx)); ok {
+	// EVM transactions are refused by the mempool check of a process that has not begun a block yet ("not
+	// enabled"): when the probe goes into the block anyway, its mempool check (and the genuine transaction's
+	// before it) is made right after the probe block's BeginBlock instead
+	var inBlock [][]byte
+	if spec.Kind == "OLVM" && check && force && tx != nil {
+		if pr, ok := probePrime.Load(string(tx)); ok {
+			inBlock = append(inBlock, pr.([]byte))
+		}
+		inBlock = append(inBlock, tx)
+		check = false
+	} else if pr, ok := probePrime.Load(string(tx)); ok {
 		// the node has seen (and checked) the genuine transaction before the probe arrives
 		if _, err := b.Check(pr.([]byte)); err != nil {
 			if err == boxcli.ErrTimeout {
@@ -226,6 +236,9 @@ func (wm *warm) runProbe(tx []byte, spec hist.TxSpec, check, force bool, follow 
 			rc.Txs = [][]byte{tx}
 			out.Included = true
 		}
+		if k == 0 && inBlock != nil {
+			rc.Inject = map[string][][]byte{"after:BeginBlock": inBlock}
+		}
 		resp, err := b.Block(rc)
 		if err != nil {
 			if err == boxcli.ErrTimeout {
@@ -252,7 +265,15 @@ func (wm *warm) runProbe(tx []byte, spec hist.TxSpec, check, force bool, follow 
 				blk.End = c
 			case "Commit":
 				blk.Commit = c
+			case "CheckTx":
+				if k == 0 && c.Injected && inBlock != nil {
+					// (the last injected check is the probe's)
+					out.Checked, out.CheckCode, out.CheckLog = true, c.Code, c.Log
+				}
 			case "DeliverTx":
+				if c.Injected {
+					continue
+				}
 				if k == 0 {
 					out.Deliver = c
 					blk.Txs = append(blk.Txs, hist.TxResult{TxSpec: spec, Call: c})
